@@ -161,7 +161,18 @@ def parseConc (c : Cfg) (obs : String) : Option ConcObs := do
   let go ← fieldNat obs "go"
   let q ← fieldNat obs "q"
   pure { maxGo := c.maxGo, hwm, gomax, before, afterDone, calls, tasks, dseq, done, st, go, q,
-         unstable := (field obs "unstable").isSome, bb := field obs "wb" == some "na" }
+         unstable := (field obs "unstable").isSome, bb := field obs "wb" == some "na",
+         cstart := (fieldNat obs "cstart").getD 0 }
+
+def burstStep (cfg : Cfg) (obs : String) : Option String :=
+  match fieldNat obs "maxpeak", fieldInt obs "maxgocnt", fieldInt obs "maxtotal", fieldInt obs "badrep" with
+  | some pk, some gc, some tot, some br => burstLaw cfg.maxGo pk gc tot br
+  | _, _, _, _ => some s!"bad-observation {obs}"
+
+def handoffStep (cfg : Cfg) (fire : Bool) (obs : String) : Option String :=
+  match fieldNat obs "early", fieldNat obs "cstart", fieldNat obs "hangs", fieldInt obs "badround" with
+  | some e, some cs, some h, some br => handoffLaw e cs h br (classify cfg fire 3 0 0)
+  | _, _, _, _ => some s!"bad-observation {obs}"
 
 /-- constructor law (C11 `ctor_rejects`): the real constructor rejects exactly what `newPool` rejects;
     white-box: the normalised initGo/coreGo/maxGo are the model's -/
@@ -228,6 +239,8 @@ def checker (model : Bool) : Checker where
           (some x, none)
         else if kind == "conc" then (none, concStep model prop c (shortIdle op) obs)
         else if kind == "aim" then (none, aimStep c obs)
+        else if kind == "burst" then (none, burstStep c obs)
+        else if kind == "handoff" then (none, handoffStep c (shortIdle op) obs)
         else (none, some s!"bad-kind {kind}")
     | _ =>
       match st with
